@@ -55,3 +55,8 @@ pub mod verif_hooks_http {
 /// Verification hooks for C11 (feature `verif-hooks`, add-only).
 #[cfg(feature = "verif-hooks")]
 pub mod verif_hooks_c11;
+
+/// Verification hooks for the `sort=` machinery of the query API (feature
+/// `verif-hooks`, add-only): see `http/verif_hooks_vribquery.rs`.
+#[cfg(feature = "verif-hooks")]
+pub use http::verif_hooks_vribquery;
